@@ -49,6 +49,9 @@ func errName(err error) string {
 // ---------------------------------------------------------------- C17q
 
 func genQ(g *GenCtx) {
+	// hvlib's streams for neighbouring seeds are shifted copies of one another and re-synchronise;
+	// re-seed from the first draw so that different seeds give unrelated programs
+	g.R = NewRng(g.R.U64())
 	// fixed cases around the proof's case splits first
 	fixed := [][]string{
 		{"new 2", "send 1", "send 2", "send 3", "close", "recv", "recv", "recv", "close", "send 4"},
